@@ -170,6 +170,28 @@ pub fn run(base: Instant, c: &Case, dump: bool) -> Out {
             }
             p.w.step();
         }
+        // a path validation still under way gets the time its retransmissions need (the client is alive
+        // and answers whatever reaches it)
+        if matches!(c.kind, Kind::Rebind { .. } | Kind::RebindSlow { .. }) && acted {
+            let until = p.w.t + Duration::from_secs(8);
+            let mut g = 0;
+            while g < 3000 {
+                g += 1;
+                let settled = p.server().map_or(true, |s| {
+                    let pr = s.conn.verif_probe();
+                    pr.path_validated && !pr.path_challenge && p.w.net.is_empty()
+                });
+                if settled {
+                    break;
+                }
+                match p.w.next_event() {
+                    Some((at, _)) if at <= until => {
+                        p.w.step();
+                    }
+                    _ => break,
+                }
+            }
+        }
         // ---- oracles
         let server_addr = p.w.nodes[SERVER].addr;
         // PATH_RESPONSE deliveries echoing a challenge sent to that address validate it
@@ -256,6 +278,11 @@ pub fn run(base: Instant, c: &Case, dump: bool) -> Out {
                     }
                 } else if acted && workload_done(&p) && final_remote != Some(target) && c.dev.is_none() {
                     viol.push(("new-path-never-validated".into(), format!("the client kept sending from {target} but no PATH_RESPONSE echoing a challenge sent there was delivered; server remote {final_remote:?}")));
+                } else if acted && matches!(c.kind, Kind::Rebind { .. }) && challenges.get(&target).map_or(false, |v| !v.is_empty()) {
+                    // validation started (a challenge went to the new address) and a single datagram was
+                    // lost, duplicated or delayed: the challenge is repeated until it is answered, so a
+                    // live client must end up validated
+                    viol.push(("new-path-validation-lost".into(), format!("the server challenged {target} but never validated it although the client is alive there and only one datagram was disturbed ({:?}); server remote {final_remote:?}", c.dev)));
                 }
                 if !workload_done(&p) {
                     for (s, w) in completion(&p) {
